@@ -4,6 +4,7 @@ package engine
 // request contexts.  Injected through a build overlay; never written to /repo.
 
 import (
+	"io"
 	"net/http"
 	"net/url"
 
@@ -200,3 +201,5 @@ func readAllOf(v any) []byte {
 	}
 	return nil
 }
+
+func ioEOF() error { return io.EOF }
